@@ -13,7 +13,7 @@ from sa.sym import I, ZERO
 from rules import c15
 
 P = lambda p, f: sym.arrow(sym.sym(p), f)
-NOINLINE = summ.InlineLib(only=lambda f: False)
+NOINLINE = summ.LOCAL_HELPERS
 FN = "tGswTorus32PolynomialDecompH"
 
 
